@@ -139,12 +139,15 @@ META["C19"] = dict(
 HOOK_SITES = {
     "protocol/dialer.go": {"simDial(": 1},
     "tls/client.go": {"simOrderConfigs(": 1},
-    "net/splitlistener.go": {'simPoint(l, "ingress.runlock.post")': 3, 'simPoint(l, "ingress.send.pre")': 2, 'simPoint(l, "ingress.send.post")': 2,
-                             'simPoint(l, "ingress.rlock.pre")': 2, 'simPoint(l, "ingress.rlock.post")': 2, 'simPoint(l, "drainer.recv.pre")': 2,
-                             'simPoint(l, "accept.ctxdone")': 2, 'simSelect(l, "accept.select")': 1, 'simPoint(l, "drainer.recv.post")': 1,
-                             'simPoint(l, "drainer.exit")': 1, 'simPoint(l, "drain.cancel.post")': 1, 'simPoint(l, "close.unlock.post")': 1,
-                             'simPoint(l, "close.lock.pre")': 1, 'simPoint(l, "close.lock.post")': 1, 'simPoint(l, "close.enter")': 1,
-                             'simPoint(l, "accept.select.pre")': 1, 'simPoint(l, "accept.recv.post")': 1},
+    # per function of MultiplexingListener: the scheduling points that must be somewhere inside it (textual occurrences are
+    # not counted: a restructured loop may need fewer call sites for the same points)
+    "net/splitlistener.go": {
+        "IngressConn": ["ingress.rlock.pre", "ingress.rlock.post", "ingress.send.pre", "ingress.send.post", "ingress.runlock.post"],
+        "IngressListener": ["ingress.rlock.pre", "ingress.rlock.post", "ingress.send.pre", "ingress.send.post", "ingress.runlock.post"],
+        "Accept": ["accept.select.pre", "accept.select", "accept.recv.post", "accept.ctxdone"],
+        "Close": ["close.enter", "close.lock.pre", "close.lock.post", "close.unlock.post"],
+        "drainConnections": ["drain.cancel.post", "drainer.recv.pre", "drainer.recv.post", "drainer.exit"],
+    },
 }
 HOOK_COMMITS = ["54f90f1", "c914c74", "9c93c69", "a7d518d"]
 
